@@ -211,7 +211,8 @@ class Run:
 
     def __init__(self, func_node, *, oracle=None, raiser=None, max_iter=2,
                  max_paths=20000, stable=None, params_env=None,
-                 pure_calls=None, body=None, loop_iters=None):
+                 pure_calls=None, body=None, loop_iters=None,
+                 declared_raises=False):
         self.node = func_node
         self.oracle = oracle            # f(atom_ast, run) -> True/False/None
         self.raiser = raiser            # f(Event) -> None | set(names) | '*'
@@ -220,6 +221,7 @@ class Run:
         self.max_paths = max_paths
         self.stable = stable or (lambda attr: False)
         self.pure_calls = pure_calls or set()
+        self.declared_raises = declared_raises
         self.symdefs = {}
         self.counter = 0
         self.cut = 0
@@ -281,6 +283,11 @@ class Run:
                     return run.expand(d['expr'], depth - 1)
                 return n
         return X().visit(copy.deepcopy(node))
+
+    def pretty(self, node):
+        """unparse with value-symbol suffixes removed (local names)"""
+        import re
+        return re.sub(SYM + r'\d+', '', U(node))
 
     def sym_of(self, node):
         if isinstance(node, ast.Name):
@@ -617,6 +624,21 @@ class Run:
                                            comparators=test.comparators)
                         pol = not pol
                         break
+                # order comparisons: canonical operator is `<`
+                #   a > b  ==  b < a ;  a <= b == not (b < a) ;
+                #   a >= b == not (a < b)
+                a, b = test.left, test.comparators[0]
+                if isinstance(op, ast.Gt):
+                    test = ast.Compare(left=b, ops=[ast.Lt()],
+                                       comparators=[a])
+                elif isinstance(op, ast.LtE):
+                    test = ast.Compare(left=b, ops=[ast.Lt()],
+                                       comparators=[a])
+                    pol = not pol
+                elif isinstance(op, ast.GtE):
+                    test = ast.Compare(left=a, ops=[ast.Lt()],
+                                       comparators=[b])
+                    pol = not pol
             break
         return test, pol
 
@@ -717,12 +739,51 @@ class Run:
                 break
         return outs + [(x, None) for x in cur]
 
+    LOOKUP_ERRORS = ('KeyError', 'IndexError', 'LookupError')
+
+    def declared_lookup_error(self, s, st):
+        """A simple statement with a subscript load / delete that sits in
+        the body of a `try` which names KeyError (IndexError) in a handler:
+        the programmer declared that the lookup may fail, so the failing
+        continuation is a path."""
+        if not self.declared_raises or not st.trys:
+            return None
+        if not isinstance(s, (ast.Assign, ast.Expr, ast.Delete, ast.Return,
+                              ast.AugAssign)):
+            return None
+        has_sub = any(isinstance(n, ast.Subscript) and
+                      not isinstance(n.ctx, ast.Store)
+                      for n in ast.walk(s))
+        if not has_sub:
+            return None
+        names = set()
+        for t, part in st.trys:
+            if part != 'body':
+                continue
+            for h in t.handlers:
+                if h.type is None:
+                    continue
+                for x in (h.type.elts if isinstance(h.type, ast.Tuple)
+                          else [h.type]):
+                    nm = x.attr if isinstance(x, ast.Attribute) else \
+                        x.id if isinstance(x, ast.Name) else None
+                    if nm in self.LOOKUP_ERRORS:
+                        names.add(nm)
+        return names or None
+
     def stmt(self, s, st):
         m = getattr(self, 's_' + type(s).__name__, None)
         if m is None:
             raise AnalysisError('unsupported statement %s at line %d'
                                 % (type(s).__name__, s.lineno))
-        return m(s, st)
+        out = []
+        names = self.declared_lookup_error(s, st)
+        if names:
+            sx = st.fork()
+            ev = self.emit(sx, 'lookup-fails', s, None)
+            out.append((sx, Signal('raise', None, origin=ev,
+                                   types=set(names))))
+        return out + m(s, st)
 
     def s_Pass(self, s, st):
         return [(st, None)]
@@ -759,9 +820,13 @@ class Run:
         return [(s2, sig) for s2, v, sig in self.eval(s.value, st)]
 
     def simple_value(self, v):
-        """May this value be propagated textually (no call / await)?"""
+        """May this value be propagated textually?  Only names, constants
+        and operators over them: anything that reads state (attribute,
+        subscript) or runs code is captured once in a value symbol."""
         for n in ast.walk(v):
             if isinstance(n, (ast.Call, ast.Await, ast.Yield, ast.YieldFrom,
+                              ast.Attribute, ast.Subscript, ast.List,
+                              ast.Dict, ast.Set,
                               ast.ListComp, ast.DictComp, ast.SetComp,
                               ast.GeneratorExp)):
                 return False
